@@ -27,9 +27,19 @@ Clauses(c) ==
       \* (assignment of the link: exactly as stated; an IN-PLACE mutation of a container link is reported by
       \* the legacy system only for some handler signatures / nesting levels - documented under "Dynamic Handler
       \* Special Cases" - so for '.' links it may or may not be reported, for ':' links it must not be)
-      linkbad == {r \in SetOf(c.regs) : ismut /\ c.m.t # "value" /\ IsChange(c.pre, c.m) /\
+      \* c.veq = 1: the objects of this pool all compare EQUAL (value-based __eq__): to a trait compared by equality a
+      \* list / dict of other objects of the same shape is no change to report - the new objects are still the ones reachable
+      chg == IF c.veq = 1 /\ c.m.t = "kidsassign" THEN Len(c.pre.kids[c.m.x]) # Len(c.m.xs)
+             ELSE IF c.veq = 1 /\ c.m.t = "dassign" THEN DKeys(c.pre.d[c.m.x]) # DKeys(Mutate(c.pre, c.m).d[c.m.x])
+             ELSE IsChange(c.pre, c.m)
+      linkbad == {r \in SetOf(c.regs) : ismut /\ c.m.t # "value" /\ chg /\
                      IF c.m.t \in {"kids", "d"} THEN c.lcalls[r.h] > 0 /\ ~Called(c.pre, r.e, c.m)
-                     ELSE (c.lcalls[r.h] > 0) # Called(c.pre, r.e, c.m)}
+                     \* handlers taking one or two arguments (new) / (name, new) are told about the DESTINATION: name / new are those of the
+                     \* final attribute as reached through the new link - with nothing to report when the new link leads nowhere
+                     \* (None assigned over None to a link compared with mode "none": left open for these signatures)
+                     ELSE IF r.sig \in {1, 2} /\ c.m.t = "child" /\ c.pre.child[c.m.x] = NoneO /\ c.m.a[1] = NoneO THEN FALSE
+                     ELSE (c.lcalls[r.h] > 0) # (Called(c.pre, r.e, c.m)
+                                                 /\ (r.sig \notin {1, 2} \/ \E x \in Obj : <<"trait", x, "value">> \in Notifying(hp, r.e)))}
       valbad == {r \in SetOf(c.regs) : ismut /\ c.m.t = "value" /\ c.lcalls[r.h] # (IF Called(c.pre, r.e, c.m) THEN 1 ELSE 0)}
       stray == {k \in 1..Len(c.lcalls) : ismut /\ (~\E r \in SetOf(c.regs) : r.h = k) /\ c.lcalls[k] # 0}
   IN (IF ismut /\ ~(\A x \in Obj : hp.child[x] = Mutate(c.pre, c.m).child[x] /\ hp.kids[x] = Mutate(c.pre, c.m).kids[x])
